@@ -220,7 +220,7 @@ pub fn gen(tier: &str, seed: u64, out: &mut dyn FnMut(Value)) {
     }
     // (3) templates whose texts mention other templates / themselves, used in matches and conditions
     const TN: [&str; 5] = ["a", "b", "ab", "c", "a}}b"];
-    const TT: [&str; 9] = ["1", "{{b}}", "{{a}}", "x{{ab}}y", "", "{{c}}{{a}}", "2", "}}", "{{"];
+    const TT: [&str; 13] = ["1", "{{b}}", "{{a}}", "x{{ab}}y", "", "{{c}}{{a}}", "2", "}}", "{{", "a", "b", "c", "ab"];
     let n3 = if thorough { 30000 } else { 2400 };
     for i in 0..n3 {
         let ndocs = 1 + rng.below(2);
@@ -239,7 +239,7 @@ pub fn gen(tier: &str, seed: u64, out: &mut dyn FnMut(Value)) {
             }
             docs.push(json!(doc));
         }
-        let lits = ["{{a}}", "{{b}}{{a}}", "{{ab}}", "x{{a}}{{c}}", "{{a}}b}}", "1", "{{b}}"];
+        let lits = ["{{a}}", "{{b}}{{a}}", "{{ab}}", "x{{a}}{{c}}", "{{a}}b}}", "1", "{{b}}", "{{{{a}}}}", "{{{{b}}}}{{c}}", "{{{a}}}", "{{{{ab}}}}"];
         let mut rules = vec![];
         for r in 0..(1 + rng.below(2)) {
             let nops = 1 + rng.below(3);
